@@ -14,7 +14,7 @@ RULE = ("E1: every labelled DAG up to the node bound as ground truth x every col
         "same skeleton and v-structures). non-trivial = distinct ground truths with at least one compelled and one "
         "reversible edge, or PDAGs with >=1 undirected edge")
 BOUNDS = {"quick": "PC: all DAGs n<=4 x all column orders (n=4: the 12 even permutations) x 3 variants x callable oracle; independence_match on n<=4 with 3 relabelings; "
-                   "skeleton_to_pdag: all sepset choices n<=4; to_dag: all 4^6 PDAG codes on 4 nodes (and n<=3)",
+                   "skeleton_to_pdag: all sepset choices n<=4 and all 29281 DAGs on 5 nodes (minimal sepsets, one node order); to_dag: all 4^6 PDAG codes on 4 nodes (and n<=3)",
           "thorough": "adds all 29281 DAGs on 5 nodes x 6 column orders x {orig, stable}"}
 EXHAUSTIVE = {"quick": True, "thorough": True}
 ASSUMPTIONS = ["max_cond_vars = n (>= max degree)", "independence_match needs every variable to occur in some statement (PC reads the variable set from the list)"]
@@ -27,7 +27,7 @@ def classes(n):
     """(skeleton, vstructs) -> list of member DAG edge tuples"""
     if n not in _classes:
         d = {}
-        for e in all_dags(n):
+        for e in _dags(n):
             g = G(n, e)
             d.setdefault((frozenset(g.skeleton()), frozenset(g.vstructs())), []).append(e)
         _classes[n] = d
@@ -59,6 +59,9 @@ def groups(tier, seed):
         out.append({"part": "todag", "n": n, "lo": 0, "hi": 4 ** (n * (n - 1) // 2)})
     for i in range(0, 4096, 128):
         out.append({"part": "todag", "n": 4, "lo": i, "hi": i + 128})
+    # orientation phase on ALL 29281 five-node DAGs (true skeleton, minimal separating sets, one node order; thorough: 4 orders)
+    for i in range(0, 29281, 400):
+        out.append({"part": "s2p5", "lo": i, "hi": min(i + 400, 29281), "orders": 1 if tier == "quick" else 4})
     if tier == "thorough":
         for i in range(0, 29281, 150):
             out.append({"part": "pc5", "n": 5, "lo": i, "hi": min(i + 150, 29281)})
@@ -83,6 +86,10 @@ def run_group(g, tier):
         dags = _dags(g["n"])
         for i in range(g["lo"], g["hi"]):
             _pc(st, g["n"], dags[i], tier, five=(g["part"] == "pc5"))
+    elif g["part"] == "s2p5":
+        dags = _dags(5)
+        for i in range(g["lo"], g["hi"]):
+            _s2p5(st, dags[i], g["orders"])
     elif g["part"] == "s2p":
         dags = _dags(g["n"])
         for i in range(g["lo"], g["hi"]):
@@ -97,6 +104,8 @@ def replay(case):
     st = Stats()
     if case["part"] == "pc":
         _pc_one(st, case["n"], [tuple(e) for e in case["edges"]], case["order"], case["variant"], case["rt"], case["oracle"], case.get("names", "str"))
+    elif case["part"] == "s2p5":
+        _s2p5(st, tuple(tuple(e) for e in case["edges"]), 4, only_order=case["order"])
     elif case["part"] == "s2p":
         _s2p(st, case["n"], [tuple(e) for e in case["edges"]], only=case.get("choice"))
     else:
@@ -272,6 +281,51 @@ def _s2p(st, n, edges, only=None):
             kind = "directed-cycle" if not is_acyclic(n, sorted(dire)) else "wrong-cpdag"
             st.violation("skeleton_to_pdag", kind, case, {"directed": sorted(dire), "undirected": sorted(map(sorted, und))},
                          {"directed": sorted(d), "undirected": sorted(map(sorted, u)), "sepsets": {str(sorted(k)): v for k, v in seps.items()}})
+
+
+ORDERS5 = [(0, 1, 2, 3, 4), (4, 3, 2, 1, 0), (2, 0, 4, 1, 3), (1, 3, 0, 4, 2)]
+
+
+def _s2p5(st, edges, norders, only_order=None):
+    import networkx as nx
+
+    from pgmpy.estimators import PC
+
+    n = 5
+    g = G(n, edges)
+    d, u, members = cpdag_of(n, edges)
+    pairs = [(x, y) for x, y in combinations(range(n), 2) if frozenset((x, y)) not in g.skeleton()]
+    seps = {}
+    for x, y in pairs:
+        for Z in subsets([v for v in range(n) if v not in (x, y)]):
+            if not g.dconnected(x, y, set(Z)):
+                seps[frozenset((x, y))] = tuple(Z)  # first = smallest separating set
+                break
+    st.states += 1
+    if d and u:
+        st.nt(edges)
+    for oi in range(norders):
+        if only_order is not None and oi != only_order:
+            continue
+        case = {"part": "s2p5", "n": 5, "edges": [list(e) for e in edges], "order": oi}
+        sk = nx.Graph()
+        sk.add_nodes_from(ORDERS5[oi])
+        sk.add_edges_from([tuple(sorted(e)) for e in g.skeleton()])
+        st.evals += 1
+        st.transitions += 1
+        try:
+            res = PC.skeleton_to_pdag(sk, seps)
+        except Exception as ex:
+            st.violation("skeleton_to_pdag", "exception", case, repr(ex)[:300])
+            continue
+        st.compared += 1
+        und = {frozenset(e) for e in res.undirected_edges}
+        dire = set(res.directed_edges)
+        if dire != d or und != u:
+            kind = "directed-cycle" if not is_acyclic(n, sorted(dire)) else "wrong-cpdag"
+            st.violation("skeleton_to_pdag", kind, case, {"directed": sorted(dire), "undirected": sorted(map(sorted, und))},
+                         {"directed": sorted(d), "undirected": sorted(map(sorted, u))})
+        st.outcome((len(d), len(u)))
 
 
 # ------------------------------------------------------------------ PDAG.to_dag
